@@ -2,6 +2,7 @@ package gws
 
 import (
 	"bytes"
+	"encoding/binary"
 	"math"
 	"sync"
 	"sync/atomic"
@@ -26,6 +27,19 @@ func (c *Conn) WriteClose(code uint16, reason []byte) error {
 		return err
 	}
 	return ErrConnClosed
+}
+
+// closeViaWrite 通过通用写接口发送关闭帧时, 必须走关闭流程, 否则连接仍处于打开状态, 后续帧会跟在关闭帧之后
+// A Close frame sent through the generic write APIs has to take the close path: otherwise the connection
+// stays open and later frames (even a second Close frame) follow the Close frame on the wire.
+func (c *Conn) closeViaWrite(body []byte) error {
+	var code = internal.CloseNormalClosure.Uint16()
+	if len(body) >= 2 {
+		code, body = binary.BigEndian.Uint16(body), body[2:]
+	} else {
+		body = nil
+	}
+	return c.WriteClose(code, body)
 }
 
 // 关闭连接并存储错误信息
@@ -66,6 +80,9 @@ func (c *Conn) WriteString(s string) error {
 // 写入文本/二进制消息, 文本消息应该使用UTF8编码
 // Writes text/binary messages, text messages should be encoded in UTF8.
 func (c *Conn) WriteMessage(opcode Opcode, payload []byte) error {
+	if opcode == OpcodeCloseConnection {
+		return c.closeViaWrite(payload)
+	}
 	err := c.doWrite(opcode, internal.Bytes(payload))
 	c.emitError(false, err)
 	return err
@@ -88,6 +105,9 @@ func (c *Conn) WriteAsync(opcode Opcode, payload []byte, callback func(error)) {
 // 类似 WriteMessage, 区别是可以一次写入多个切片
 // Writev is similar to WriteMessage, except that you can write multiple slices at once.
 func (c *Conn) Writev(opcode Opcode, payloads ...[]byte) error {
+	if opcode == OpcodeCloseConnection {
+		return c.closeViaWrite(bytes.Join(payloads, nil))
+	}
 	var err = c.doWrite(opcode, internal.Buffers(payloads))
 	c.emitError(false, err)
 	return err
